@@ -554,7 +554,7 @@ pub fn generate(tier: &str, rng: &mut Rng) -> Vec<String> {
     }
 
     // ---- structured: statuses
-    let n = if thorough { 60000 } else { 4000 };
+    let n = if thorough { 200000 } else { 4000 };
     for i in 0..n {
         let code = rng.below(17);
         let msg = gen_message(rng);
@@ -571,7 +571,7 @@ pub fn generate(tier: &str, rng: &mut Rng) -> Vec<String> {
     }
 
     // ---- malformed / arbitrary peer header maps
-    let n = if thorough { 60000 } else { 4000 };
+    let n = if thorough { 200000 } else { 4000 };
     for _ in 0..n {
         let mut es: Vec<(Vec<u8>, Vec<u8>)> = Vec::new();
         let k = rng.range(0, 5);
@@ -590,7 +590,7 @@ pub fn generate(tier: &str, rng: &mut Rng) -> Vec<String> {
         out.push(format!("dec {}", entries_tok(&es)));
     }
     // end-of-body classification with trailers
-    let n = if thorough { 20000 } else { 1500 };
+    let n = if thorough { 60000 } else { 1500 };
     for _ in 0..n {
         let http = match rng.below(4) {
             0 => 200,
